@@ -58,6 +58,10 @@ def select_family(f):
         a, va = f.val(); b, vb = f.val()
         if f.b == 'postgres': calls.append(['expr', ['custv', 'k_%d = $2 AND k_%d = $1' % (a, b), [vb, va]]])
         else: calls.append(['expr', ['custv', 'k_%d = ? AND k_%d = ?' % (a, b), [va, vb]]])
+    if f.opt('funcs'):
+        # functions whose name differs between the dialects (CHAR_LENGTH / LENGTH, GREATEST / MAX, LEAST / MIN, RAND / RANDOM) and one that does not
+        calls += [['expr_as', ['func', 'char_length', [C('fa')]], 'f1'], ['expr_as', ['func', 'greatest', [C('fa'), C('fb')]], 'f2'], ['expr_as', ['func', 'least', [C('fa'), C('fb')]], 'f3'],
+                  ['expr_as', ['func', 'random', []], 'f4'], ['expr_as', ['func', 'coalesce', [C('fa'), C('fb')]], 'f5']]
     fk = f.pick('from', 3)
     if fk == 0: calls.append(['from', ['t', 't']])
     elif fk == 1: calls.append(['from_subquery', f.small_select('inner'), 'sub'])
@@ -207,7 +211,7 @@ def with_family(f):
 
 FAMILIES = {
     # name: (generator, toggle groups for the quick tier, toggles of the thorough tier)
-    'select': (select_family, [['distinct', 'valitem', 'case', 'cust', 'from', 'cte'], ['from', 'arity', 'vrows', 'join', 'w1', 'insub'], ['w2', 'group', 'having', 'join', 'w1'], ['w1', 'union', 'order', 'limit', 'offset', 'window'],
+    'select': (select_family, [['distinct', 'valitem', 'case', 'cust', 'from', 'cte', 'funcs'], ['from', 'arity', 'vrows', 'join', 'w1', 'insub'], ['w2', 'group', 'having', 'join', 'w1'], ['w1', 'union', 'order', 'limit', 'offset', 'window'],
                                ['union', 'utype', 'ulimit', 'order', 'ordnulls', 'ordfunc', 'window', 'frame']],
                [SELECT_TOGGLES[:10], SELECT_TOGGLES[5:15], SELECT_TOGGLES[9:], ['valitem', 'cust', 'from', 'arity', 'w1', 'union', 'order', 'limit', 'offset', 'window'],
                 ['from', 'union', 'utype', 'ulimit', 'order', 'ordnulls', 'ordfunc', 'window', 'frame', 'limit', 'offset'], ['cte', 'distinct', 'case', 'insub', 'group', 'having', 'union', 'utype', 'window', 'frame']]),
